@@ -230,6 +230,7 @@ def run(ctx):
     features(ctx, fb, caps, T)
     narrow(ctx, fb)
     masks(ctx, fb)
+    float_to_int(ctx, fb, T)
 
 
 def token_rule(ctx, fb, caps):
@@ -493,3 +494,35 @@ def masks(ctx, fb):
             ok = ok and cmp_ok
         ctx.inst(R, 'safe-wrapper:' + f.path.split('ops::', 1)[-1], ok, 'safe %s checks the slice length against the vector length (non-debug assert) on every path before the raw pointer access' % f.path.split('::')[-1], f.loc())
     ctx.floor(R, 'safe wrappers around raw vector loads/stores', nw, 5)
+
+
+
+def float_to_int(ctx, fb, T):
+    """float -> int conversion is the one primitive whose out-of-range behaviour differs by construction between the ISAs
+    (x86 cvt(t)ps2dq yields i32::MIN for out-of-range / NaN input, the generic `as i32` saturates): a vectorized operation
+    agrees across ISAs - and between its vector body and scalar tail - only if the converted value was clamped to a range
+    where all agree (min/max/clamp immediately upstream), or the out-of-range lanes are provably replaced afterwards
+    (reviewed table, one line of reason per site)."""
+    R = 'C18.float-to-int'
+    rev = RevTable({e['fn']: e['reason'] for e in T.get('float_to_int_reviewed', [])})
+    n = 0
+    seen = set()
+    for cr in ('rten_vecmath', 'rten', 'rten_gemm', 'rten_generate'):
+        for f, c in callers_of(fb, 're:::to_int_(round|trunc)$', crates=[cr]):
+            n += 1
+            arg = c.args[1] if len(c.args) > 1 else c.args[0]
+            r = f.resolve_copy(arg)
+            clamped = r[0] == 'call' and re.search(r'::(min|max|clamp)$', r[1].callee or '') is not None
+            if clamped and re.search(r'::(min|max)$', r[1].callee or ''):
+                # one-sided so far: the other bound must be directly upstream as well
+                r2 = f.resolve_copy(r[1].args[1]) if len(r[1].args) > 1 else ('none',)
+                other = 'max' if r[1].callee.endswith('min') else 'min'
+                clamped = r2[0] == 'call' and re.search(r'::(%s|clamp)$' % other, r2[1].callee or '') is not None
+            short = f.path.replace('rten_vecmath::', '')[-80:]
+            key = short if short not in seen else short + '#%d' % n
+            seen.add(short)
+            rv = rev.get(f.path) if '{closure' not in f.path else rev.get(f.o.get('parent', f.path)) or rev.get(f.path)
+            ok = clamped or rv is not None
+            ctx.inst(R, key, ok, 'the converted value is clamped on both sides immediately before the conversion' if clamped else ('reviewed: ' + rv) if rv else
+                     'to_int_round / to_int_trunc is applied to a value that is not clamped: out-of-range and NaN lanes become i32::MIN on x86 but saturate on the generic ISA (and in a scalar `as i32` tail), so results differ by ISA and by position in the slice', c.loc())
+    ctx.floor(R, 'float -> int conversion sites in vectorized code', n, 3)
